@@ -10,35 +10,35 @@ K = "Kani 0.68 -> CBMC 6.11 bounded model checking of the real compiled function
 CLAIMS = {
     # id: (technique, level text, design ref)
     "C02": (K + "; one-step state-machine harnesses with a symbolic clock stub",
-            "NARROW: solver-decided for the commissioning-window state machine only (Pase::open_basic_comm_window / record_pake_failure / check_comm_window_timeout / close_comm_window): open succeeds iff closed and timeout in [180,900] s and salt length in [16,32]; every failure counted once, window revoked exactly at the 20th (also 20 in a row from a fresh window); expiry iff now > expiry; every open/close path calls the mDNS notifier. SPAKE2+ math, the async responder/initiator and session creation are outside.", "4/C02"),
+            "NARROW: solver-decided for the commissioning-window state machine only (Pase::open_basic_comm_window / record_pake_failure / check_comm_window_timeout / close_comm_window): open succeeds iff closed and timeout in [180,900] s and salt length in [16,32]; every failure counted once, window revoked exactly at the 20th (also 20 in a row from a fresh window); expiry iff now > expiry; every open/close path calls the mDNS notifier; thorough: every 4-operation sequence (open / failures / poll after a time step / close) stays in step with a three-variable reference model. SPAKE2+ math, the async responder/initiator and session creation are outside.", "4/C02"),
     "C03": (K + "; recording AEAD oracle (what exactly is handed to the primitive), identity cipher for the round trip",
-            "Solver-decided over every datagram <= 40 bytes: decode consults the AEAD exactly once with the session key, nonce = security flags | counter | the SESSION's peer node id, AAD = every byte preceding the ciphertext, ciphertext = all remaining bytes; a rejecting oracle yields Err; encode does the same with the local node id and decode(encode(h, payload<=4 B)) returns the same header fields and payload. 'No state change on reject' is claimed only up to Session::post_recv (C04 session harness); TransportRunner::decode_packet and the group key trial loop are outside.", "4/C03"),
+            "Solver-decided over every datagram <= 40 bytes: decode consults the AEAD exactly once with the session key, nonce = security flags | counter | the SESSION's peer node id, AAD = every byte preceding the ciphertext, ciphertext = all remaining bytes; a rejecting oracle yields Err; encode does the same with the local node id and decode(encode(h, payload<=4 B)) returns the same header fields and payload (<= 16 B thorough); the receive-session selection predicate (session id, secured/unsecured kind, peer address, source / destination node id, never a reserved session) == reference. 'No state change on reject' is claimed only up to Session::post_recv (C04 session harness); TransportRunner::decode_packet and the group key trial loop are outside.", "4/C03"),
     "C04": (K + "; inductive step over ALL window states + k-step histories from the real initial state",
             "FULL for the window logic: one receive from EVERY (max, bitmap) state against a window model written from the property text, for secure unicast, unsecured and group (roll-over) modes - exhaustive in 2^112 inputs; histories of 3 (quick) / 4 (thorough) receives from the state every Session starts in; Session::post_recv surfaces duplicates as Err(Duplicate) with exchange table, window and send counter untouched; group sender table with 2 entries (quick) and the real 16 with LRU eviction (thorough). The async transport that calls it is outside.", "4/C04"),
     "C05": (K + "; differential harness: AclEntry::allow vs an independently written reference of the Access Control Privilege Granting algorithm",
-            "Solver-decided: entry decision == reference for every entry (privilege x auth mode x subjects null/empty/1/2 x targets null/empty/1/2 with endpoint/cluster/device-type x auxiliary flag), accessor (mode incl. none, fabric incl. 0, node id, 2 tags), path, operation and every 16-bit access word; tag matching exhaustive; privilege lattice exhaustive over all 2^16 access words. Fabric-level dispatch over a populated Fabrics table (20 GB in CBMC) and group endpoint membership are outside.", "4/C05"),
+            "Solver-decided: entry decision == reference for every entry (privilege x auth mode x subjects null/empty/1/2 x targets null/empty/1/2 with endpoint/cluster/device-type x auxiliary flag), accessor (mode incl. none, fabric incl. 0, node id, 2 tags), path, operation and every 16-bit access word; tag matching exhaustive; privilege lattice exhaustive over all 2^16 access words; fabric-level dispatch (Fabrics::allow over 2 fabrics x <= 2 entries with the entry decision replaced by an oracle): PASE implicit grant, accessor without an existing fabric denied, only entries of the accessor's own fabric consulted. The groupcast auxiliary grant and group endpoint membership are outside.", "4/C05"),
     "C06": (K + "; compiler-level stub of AccessReq::allow by a recording permission oracle",
-            "NARROW: solver-decided for the synchronous kernels only: the three cluster gates (attribute / command / event) let an operation through only after exactly one positive consultation of the permission oracle with the element's DECLARED access word, the right operation and the concrete path; unknown leaves, unsupported operations, untimed access to timed-only elements and fabric-scoped commands without fabric are refused with the prescribed status; PathExpander on a 1x1x2 node: a concrete read path yields the leaf iff it exists and is permitted, else the status of the first missing level. Cache reuse and wildcard expansion are thorough-tier. IM handlers, response encoding, timed-window expiry and composition changes between chunks (async) are outside.", "4/C06"),
+            "NARROW: solver-decided for the synchronous kernels only: the three cluster gates (attribute / command / event) let an operation through only after exactly one positive consultation of the permission oracle with the element's DECLARED access word, the right operation and the concrete path; unknown leaves, unsupported operations, untimed access to timed-only elements and fabric-scoped commands without fabric are refused with the prescribed status; PathExpander on a 1x1x2 node: a concrete read path yields the leaf iff it exists and is permitted, else the status of the first missing level. The one-entry authorisation cache as an inductive step from an arbitrary cache content (reuse only for the identical triple, a denial is never remembered). Wildcard expansion and multi-path lists did not finish within the caps and are NOT claimed (DESIGN 7.7). IM handlers, response encoding, timed-window expiry and composition changes between chunks (async) are outside.", "4/C06"),
     "C07": (K + "; state harnesses over the real Sessions / Fabrics / FailSafe objects (table capacity 3)",
             "NARROW: solver-decided: after Sessions::remove_for_fabric(F) no session carries F except the answering one (expired) and sessions of other fabrics are untouched (2 arbitrary sessions); after FailSafe::expire of a context that added fabric F the fabric is gone, the fail-safe idle, and neither a CASE nor a PASE session on F survives (concrete 2-session scene, both 'answering session' variants); an expired session opens no new exchange. Subscriptions, group keys, resumption records (purged in im.rs) and the handler sequencing are outside.", "4/C07"),
     "C08": (K + "; truth-table harness of the command gate against a reference predicate; one-step transition harnesses",
             "NARROW: solver-decided from EVERY fail-safe context (idle/armed x all flag sets x fabric x timeout) and every session mode: the gate for AddNOC / UpdateNOC / AddTrustedRootCertificate / CSRRequest == reference predicate (armed, not plaintext, UpdateNOC => CASE, same fabric, required flags present, excluded absent) with the documented error codes; CSRRequest through the real entry points sets exactly its own flag once and a refused command leaves the context unchanged; arm / re-arm / ArmFailSafe(0); timer expiry fires iff now >= armed_at + timeout. Atomic persistence, restart and KV failures (async handlers) are outside.", "4/C08"),
     "C09": (K + "; back-off arithmetic exported as SMT-LIB2 (repaired export, self-tested) and decided by cvc5 --solve-bv-as-int / cvc5 / z3",
-            "NARROW: solver-decided one-step harnesses from every reliability state: retransmission budget (exactly 5 transmissions, then TxTimeout, never Ok, entry cleared), ack matching (matching ack clears, foreign ack => Duplicate and no change), an ack is owed only for a received reliable message and carries its counter, piggy-backing. Back-off per transmission count n=0..5 for every base interval < 2^22 ms: never above the real-valued formula, at most 14 ms below, jitter in {0,1,128,255} monotone and <= 25 %. The async sender loop, timers and the re-ack of duplicates are outside.", "4/C09"),
+            "NARROW: solver-decided one-step harnesses from every reliability state: retransmission budget (exactly 5 transmissions, then TxTimeout, never Ok, entry cleared), ack matching (matching ack clears, foreign ack => Duplicate and no change), an ack is owed only for a received reliable message and carries its counter, piggy-backing. Back-off per transmission count n=0..5 for every base interval < 2^22 ms: never above the real-valued formula, at most 14 ms below, jitter in {0,1,128,255} monotone and <= 25 %. Two-ends composition: a reliable message is acknowledged by the peer's next message with exactly its counter and only that ends the retransmissions. The receive-timeout ladder sum (no back end finished), the async sender loop, timers and the re-ack of duplicates are outside.", "4/C09"),
     "C10": (K + "; state harness over a real Session with <= 3 exchange slots",
-            "NARROW: solver-decided: a message matches exactly the first live exchange with the same id and the opposite role; no match => a new exchange iff initiator flag, not standalone-ack/status, session not expired and a free slot, with NoExchange / NoSession / NoSpaceExchanges otherwise; the new exchange is a responder in AcceptPending with the message's id; a dropped exchange is freed iff nothing is pending. 'Never wedges' (liveness over async schedules), accept deadline and orphan sweep are outside.", "4/C10"),
+            "NARROW: solver-decided: a message matches exactly the first live exchange with the same id and the opposite role; no match => a new exchange iff initiator flag, not standalone-ack/status, session not expired and a free slot, with NoExchange / NoSession / NoSpaceExchanges otherwise; the new exchange is a responder in AcceptPending with the message's id; a dropped exchange is freed iff nothing is pending; request / response over two sessions (same exchange id, initiator flag cleared, delivered to the requesting exchange); thorough: all 5 exchange slots arbitrary. 'Never wedges' (liveness over async schedules), accept deadline and orphan sweep are outside.", "4/C10"),
     "C12": (K + "; inductive step + crash/restart schedules; the 64-bit %10000 kernel via SMT-LIB2 (cvc5 / z3)",
             "FULL for the three counters: check-in counter, global group data counter and event number: one operation from every state satisfying the stated representation invariant hands out a value strictly before the durable boundary and a restart resumes past it; 5-step schedules with symbolic crash points (before/after the store) from any start incl. the ring wrap yield pairwise distinct values. The caller-side 'store before send' in async code (Exchange::initiate_group) is outside.", "4/C12"),
     "C13": (K + "; ghost-change invariant harnesses over the real ChangedAttrs / SubscriptionsInner (promotion stubbed to unreachable below capacity)",
-            "Solver-decided: record / record_wildcard keep every pending change pending (coalescing keeps the max id) on tables of <= 3 arbitrary entries with the overflow path proved unreachable; purge_up_to exact; SubscriptionsInner::purge_reported_changes keeps whatever a live subscription - in the table or in flight (priming / reporting) - has not seen; coarsen/covers soundness; report timing (allowed / due / expired / retry back-off) against closed formulas. Full-table promotion on a concretised table is thorough-tier. Reporter loop and priming path (async) are outside.", "4/C13"),
+            "Solver-decided: record / record_wildcard keep every pending change pending (coalescing keeps the max id) on tables of <= 3 arbitrary entries with the overflow path proved unreachable; purge_up_to exact; SubscriptionsInner::purge_reported_changes keeps whatever a live subscription - in the table or in flight (priming / reporting) - has not seen; coarsen/covers soundness; report timing (allowed / due / expired / retry back-off) against closed formulas. The last-ditch overflow path on a concrete full table (the new change concrete, the older change and the subscriber's watermark symbolic). Promotion over symbolic table contents did not finish within the caps and is NOT claimed (DESIGN 7.7). Reporter loop and priming path (async) are outside.", "4/C13"),
     "C15": (K + "; state harnesses over real Session / Sessions",
             "Solver-decided: a non-retransmission takes the session counter and leaves counter+1 (assumption: < 2^32 messages per session); a retransmission re-uses counter, plain and exchange header for any single interleaved receive that does not acknowledge it; locally chosen session ids are non-zero and unique among 3 live sessions; exchange ids unique among live initiator exchanges. KNOWN FINDING (not repaired): the piggy-backed ack of a retransmission changes when a reliable message was received in between. Payload builders and randomised signatures (async) are outside.", "4/C15"),
     "C16": (K + "; decoder-safety harnesses on arbitrary bytes, differential harness vs a reference integer decoder, writer->reader round trips per scalar kind / tag form",
-            "Solver-decided within stated byte bounds: header length arithmetic over ALL 10- and 18-byte prefixes (every 64-bit length field); every scalar accessor on every byte string <= 10 returns Ok/Err without panic/overflow/out-of-range and integer decode + element length == reference decoder; container_len / raw_value stay within the input for every byte string <= 5 (7 thorough); read(write(v)) == v for each integer width, bool, null under a context tag and for each of the 8 tag forms, strings of 0..4 bytes with each length-field width; tlv_iter on a nested skeleton re-encodes to the same bytes. Element/TLV iterators on arbitrary bytes and re-encode identity on arbitrary bytes are thorough-tier (minutes to tens of minutes); derived structs are outside.", "4/C16"),
+            "Solver-decided within stated byte bounds: header length arithmetic over ALL 10- and 18-byte prefixes (every 64-bit length field); every scalar accessor on every byte string <= 10 returns Ok/Err without panic/overflow/out-of-range and integer decode + element length == reference decoder; container_len / raw_value stay within the input for every byte string <= 5 (7 thorough); read(write(v)) == v for each integer width, bool, null under a context tag and for each of the 8 tag forms, strings of 0..4 bytes with each length-field width; string decode == reference decoder on every byte string <= 12 (all four length widths); f32 / f64 bit-exact. Thorough tier adds the element iterator on every byte string <= 4 and container_len <= 7. TLV iterator / find_ctx / re-encode identity on arbitrary bytes, multi-member containers and derived structs did not finish within the caps and are NOT claimed (DESIGN 7.7).", "4/C16"),
     "C17": (K + "; encode->decode and decode->encode round-trip + decoder-safety harnesses per format",
-            "PARTIAL LIST: PlainHdr (26-byte prefixes, every field combination), ProtoHdr (plaintext path), status report, BTP segment header + handshake bodies, Check-In framing (oracle AEAD/HMAC, app data <= 4 B, arbitrary <= 40 B input), base38 chunk kernels (every 1-3 byte chunk, every <= 5 byte hostile chunk), ParseBuf / WriteBuf primitives. Manual pairing code and QR text (core::fmt / str::parse do not finish), mDNS, Matter<->X.509, CD, BDX, BLE advertisement are outside.", "4/C17"),
+            "PARTIAL LIST: PlainHdr (26-byte prefixes, every field combination), ProtoHdr (plaintext path), status report, BTP segment header + handshake bodies, Check-In framing (oracle AEAD/HMAC, app data <= 4 B, arbitrary <= 40 B input), base38 chunk kernels (every 1-3 byte chunk, every <= 5 byte hostile chunk) and the public decoder on ASCII strings of 2-3 (4 thorough) characters, the 11-digit manual pairing code parser == an independent Verhoeff / digit-group reference on EVERY 11-character ASCII string, QR bit reader == reference, the fixed 88-bit QR part for all field values, the QR payload validity predicate over all vendor / product / passcode values, BDX Init / Accept / Block / Query messages (write->parse and parse->write, <= 24 bytes), BLE commissionable and recovery advertisements (emit->parse, parse == reference walker on every <= 16 bytes), ParseBuf / WriteBuf primitives. The 21-digit pairing code, QR text end to end (base38 + TLV tail), manual code generation (core::fmt), mDNS records, Matter<->X.509, CD are outside.", "4/C17"),
     "C18": (K + "; hostile-segment step from any window state with the ring buffer abstracted by a verified-separately FIFO stub",
-            "Solver-decided: any <= 8 byte data segment against an established session in ANY window state satisfying the representation invariant: Ok/Err, never panic/overflow, invariant preserved, wrong sequence / window overrun / ack of a segment not in flight are errors; hostile handshake requests <= 10 bytes (negotiated MTU in range, windows opened); sender step (segment only when the peer window allows, consecutive sequence numbers, pending ack piggy-backed, payload is the message slice, flags) for segment sizes 20-21 and messages <= 24 B; is_ack_due predicate; real RingBuf<8> == FIFO. Two-session transfer is thorough-tier. The production RingBuf<3166> and the async Btp wrapper are outside.", "4/C18"),
+            "Solver-decided: any <= 8 byte data segment against an established session in ANY window state satisfying the representation invariant: Ok/Err, never panic/overflow, invariant preserved, wrong sequence / window overrun / ack of a segment not in flight are errors; hostile handshake requests <= 10 bytes (negotiated MTU in range, windows opened); sender step (segment only when the peer window allows, consecutive sequence numbers, pending ack piggy-backed, payload is the message slice, flags) for segment sizes 20-21 and messages <= 24 B; is_ack_due predicate; real RingBuf<8> == FIFO. Sender->receiver compositions: the whole handshake between two sessions (both ends agree, first data segment accepted in each direction) and the first segment of any message <= 24 B accepted by the peer (quick); whole two-segment transfer with acknowledgement leg and sequence wrap (thorough). The production RingBuf<3166> and the async Btp wrapper are outside.", "4/C18"),
     "C19": (K + "; compiler-level stubs of the CertRef accessors (symbolic certificate attributes), recording signature oracle",
             "NARROW: solver-decided: CertVerifier (add_cert / verify_usage / finalise) accepts the chains NOC->RCAC and NOC->ICAC->RCAC iff the reference predicate holds (every link an authority link with a good signature, validity vs reliable / last-known-good time, leaf non-CA with digitalSignature and server+client auth, authorities CA with keyCertSign within path length, no unknown critical extension, root verifies against itself), each rule also as its own role. Extraction of those attributes from TLV, DER re-encoding, the real signature and the AddNOC/CASE wrappers are outside.", "4/C19"),
     "C20": (K + "; state harnesses over the real Sessions table (capacity 3)",
